@@ -212,4 +212,49 @@ theorem dc_holds (s : State) (cs : List (String × String × Int)) (hwf : WF s.d
   | dropRef id ok ph => simp only [evOK]; exact hrem id hgood
   | prune => rfl
 
+/-- the statement's expiry clause holds of every `exp` step of the model -/
+theorem exp_holds (s : State) (db rp : String) (D : Int) (t : Int) :
+    holdsOp (.exp db rp D t, (step s (.exp db rp D t)).2) = true := by
+  simp only [step]
+  split
+  · next r hr =>
+    simp only [holdsOp, expiredOK, List.all_eq_true, List.mem_map, forall_exists_index, and_imp,
+      forall_apply_eq_imp_iff₂]
+    intro g hg
+    have h := (mem_expired_iff { r with Duration := D } t g).mp hg
+    simp only [Bool.and_eq_true, bne_iff_ne, ne_eq, List.any_eq_true, beq_iff_eq]
+    refine ⟨h.2.2.1, g, h.1, rfl, ?_⟩
+    simp only [rangeOlder, Bool.or_eq_true, decide_eq_true_eq]
+    left; have := h.2.2.2; simp at this; omega
+  · rfl
+
+theorem dom19_of_spec {op : Op} (h : opInDomain op = true) : opDom op := by
+  cases op <;> simp only [opInDomain, opDom, Spec.C19.inRange, Influx.Meta.inRange, Bool.and_eq_true, decide_eq_true_eq,
+    Bool.or_eq_true, Bool.not_eq_true', List.all_eq_true] at h ⊢
+  · intro hr; rcases h with h | h
+    · rw [hr] at h; cases h
+    · exact h
+  · exact h
+  · exact h
+  · intro t ht; exact h.1 t ht
+  · exact h
+
+theorem all_run (ops : List Op) (hdom : ∀ op ∈ ops, opInDomain op = true) (s : State) (hwf : WF s.data) :
+    (run s ops).all holdsOp = true := by
+  induction ops generalizing s with
+  | nil => rfl
+  | cons op ops ih =>
+    have hd := hdom op (by simp)
+    simp only [run, List.all_cons, Bool.and_eq_true]
+    refine ⟨?_, ih (fun o ho => hdom o (by simp [ho])) _ (step_wf s op hwf (dom19_of_spec hd))⟩
+    cases op with
+    | ms db rp c ts =>
+      simp only [opInDomain, Bool.and_eq_true, List.all_eq_true, Spec.C19.inRange, decide_eq_true_eq] at hd
+      refine ms_holds s db rp c ts hwf (fun t ht => hd.1 t ht) ?_
+      intro a ha; subst ha; simpa using hd.2
+    | dc cs => exact dc_holds s cs hwf
+    | exp db rp D t => exact exp_holds s db rp D t
+    | _ => simp [holdsOp]
+
+
 end Influx.Meta
